@@ -146,6 +146,17 @@ func (e *Engine) translate(u *Unit) {
 		for _, c := range u.contracts() {
 			env := x.unitEnv(fr0, c, x.st)
 			x.bindResult(env, res)
+			if x.retFrame != nil {
+				// address-taken locals of the function are visible in its postconditions by their source name
+				// (the value is the variable's address: dd.Parent reads through it)
+				for v, val := range x.retFrame.env {
+					if a, ok := v.(*ssa.Alloc); ok && a.Comment != "" && a.Comment != "complit" {
+						if _, taken := env.vars[a.Comment]; !taken {
+							env.vars[a.Comment] = val
+						}
+					}
+				}
+			}
 			for _, cl := range c.clauses("ensures") {
 				x.oblige("post", cl.Label, clauseProps(cl, c), x.evalBool(env, cl.expr()), cl.Text)
 			}
